@@ -104,9 +104,9 @@ fn run_guarded<E: Engine>(e: &E, case: &E::Case, p: &Params) -> Outcome {
                     Failure::new(
                         &p.property,
                         "panic-escaped",
-                        format!("server/sdk panic: {} at {}", rp.message, rp.location),
+                        format!("server/sdk panic: {} at {} (in {})", rp.message, rp.location, rp.repo_frame),
                     )
-                    .tag(format!("panic@{}", rp.location)),
+                    .tag(format!("panic@{}", rp.location.rsplit('/').next().unwrap_or(""))),
                 );
             } else {
                 o.inconclusive = Some(format!("harness panic: {:?}", panics.last()));
